@@ -205,6 +205,7 @@ type Interpreter struct {
 	mapTypes   map[reflect.Value][]reflect.Type // special interfaces mapping for wrappers
 
 	mutex    sync.RWMutex
+	envMu    sync.RWMutex      // protects the virtual environment (opt.env), shared by the goroutines of the script
 	frame    *frame            // program data storage during execution
 	universe *scope            // interpreter global level scope
 	scopes   map[string]*scope // package level scopes, indexed by import path
